@@ -349,6 +349,17 @@ let rawblock_line line =
   | M.RErr _ -> "err"
   | M.RPanic _ -> "panic"
 
+(* fastblock <window> <data-hex> <body-hex> : match finder model on the data, compress_block's split, the block model;
+   distributions taken from the real body *)
+let fastblock_line line =
+  match List.filter (fun x -> x <> "") (split_on ' ' line) with
+  | [w; data; body] ->
+    (match M.fastest_first_block (nat_of_int (int_of_string w)) (unhex data) (unhex body) with
+     | M.ROk (h, again) -> Printf.sprintf "ok %s %s" (if h then "1" else "0") (hex again)
+     | M.RErr _ -> "err"
+     | M.RPanic _ -> "panic")
+  | _ -> "bad"
+
 (* ---- Huffman literal stream: hufstream <c,n c,n ...|-> <data-hex> ; hufdec <encoded-hex> ---- *)
 let hufstream_line line =
   match List.filter (fun x -> x <> "") (split_on ' ' line) with
@@ -391,6 +402,7 @@ let () =
     | "seqenc" -> seqenc_line
     | "seqsection" -> seqsection_line
     | "rawblock" -> rawblock_line
+    | "fastblock" -> fastblock_line
     | "hufstream" -> hufstream_line
     | "hufdec" -> hufdec_line
     | "fsedesc" -> fsedesc_line
